@@ -638,6 +638,8 @@ func checkC17(ck *Check) {
 			ck.nothingDropped("C17.R8", os, ck.P.NewCtx(os), fleet, att0)
 		}
 	}
+	// R9 δ units of fleet capacity are δ instances
+	ck.capacityInInstances("C17.R9")
 }
 
 func isAwsHelper(t *Term, name string) bool {
@@ -1552,6 +1554,191 @@ func (ck *Check) outcomeReported(rule string, cs *ssa.Function, call *ssa.Call, 
 	}
 }
 
+// refreshReplaces (C19.R8, C04.R7): what MinSize(), MaxSize(), TargetSize() and Nodes() answer is
+// the described group of the last refresh. In the function that describes the groups (reached from
+// Refresh): inside the range over the described groups, a group that is already registered gets the
+// described object as a whole — under no condition but "already registered" — and nothing reachable
+// from there patches the cached object field by field.
+func (ck *Check) refreshReplaces(rule string) {
+	a := ck.A
+	if a.AwsRefresh == nil || a.TAwsNodeGroup == nil {
+		ck.lost(rule, "Refresh", "the provider's Refresh method or node group type was not resolved")
+		return
+	}
+	fAsg := field(a.TAwsNodeGroup, "asg")
+	if fAsg == nil {
+		// the field by role: the *autoscaling.Group held by the node group
+		if st, ok := a.TAwsNodeGroup.Underlying().(*types.Struct); ok {
+			for i := 0; i < st.NumFields(); i++ {
+				if strings.HasSuffix(st.Field(i).Type().String(), "autoscaling.Group") {
+					fAsg = st.Field(i)
+				}
+			}
+		}
+	}
+	var root *ssa.Function
+	var desc *ssa.Call
+	for fn := range ck.P.reachCut([]*ssa.Function{a.AwsRefresh}, nil) {
+		if !ck.P.inRepo(fn) || fn.Blocks == nil {
+			continue
+		}
+		for _, ci := range callsIn(fn, nil) {
+			if c, ok := ci.(*ssa.Call); ok && c.Common().IsInvoke() && c.Common().Method.Name() == "DescribeAutoScalingGroups" {
+				root, desc = fn, c
+			}
+		}
+	}
+	if root == nil || fAsg == nil {
+		ck.fail(rule, "refresh/describe", "", funcID(a.AwsRefresh), "Refresh reaches a DescribeAutoScalingGroups call", "not found", "the cached groups are never brought up to date")
+		return
+	}
+	ctx0 := ck.P.NewCtx(root)
+	isDescribed := func(t *Term) bool {
+		return t != nil && t.Kind == "field" && t.Name == "AutoScalingGroups" && len(t.Args) == 1 &&
+			isExtractOf(t.Args[0], 0, func(x *Term) bool { return x.Key() == ctx0.Term(desc).Key() })
+	}
+	var loop *Loop
+	for _, l := range loopsOf(root) {
+		if l.Over != nil && isDescribed(ctx0.Term(l.Over)) {
+			loop = l
+		}
+	}
+	if loop == nil {
+		ck.fail(rule, funcID(root)+"/range", ck.P.instrPos(desc), funcID(root), "the described groups are ranged over", "no range over the result's AutoScalingGroups", "")
+		return
+	}
+	n := 0
+	ck.bodyInstrsPC(root, func(ctx *Ctx, fn *ssa.Function, in ssa.Instruction, prefix *Formula) {
+		st, ok := in.(*ssa.Store)
+		if !ok {
+			return
+		}
+		fa, ok := st.Addr.(*ssa.FieldAddr)
+		if !ok {
+			return
+		}
+		if fieldOfAddr(fa) == fAsg {
+			if _, fresh := fa.X.(*ssa.Alloc); fresh {
+				return // a node group under construction
+			}
+			n++
+			key := fmt.Sprintf("%s/store:%s", funcID(fn), fAsg.Name())
+			v := ctx.Term(st.Val)
+			ck.cond(isElemOf(v, isDescribed), rule, key+"/value", ck.P.instrPos(st), funcID(fn), "a registered group's cached scaling group is replaced by the described object", v.String(),
+				"the cache is refreshed from something other than the describe result")
+			pc := And(prefix, ctx.PC(st))
+			want := loop.bodyPC(ctx0)
+			for _, at := range pc.Atoms() {
+				if at.Kind == "extract" && at.Name == "1" && len(at.Args) == 1 && at.Args[0].Kind == "lookup" {
+					want = And(want, Atom(at))
+				}
+			}
+			imp, why, _ := Entails(want, pc)
+			ck.cond(imp, rule, key+"/always", ck.P.instrPos(st), funcID(fn), "every described group that is already registered is replaced (no further condition)", pc.String(), why)
+			return
+		}
+		// a field of the cached group written in place
+		if ld, ok := fa.X.(*ssa.UnOp); ok && ld.Op == token.MUL && fieldOfAddr(ld.X) == fAsg {
+			f := fieldOfAddr(fa)
+			name := "?"
+			if f != nil {
+				name = f.Name()
+			}
+			ck.fail(rule, fmt.Sprintf("%s/patch:%s", funcID(fn), name), ck.P.instrPos(st), funcID(fn), "a refresh does not patch the cached scaling group field by field", "store into "+name,
+				"fields that are not copied (minimum, maximum, …) keep the values they had when the controller started")
+		}
+	})
+	ck.floor(rule, "stores that replace a registered group's cached scaling group", n, 1)
+}
+
+// capacityInInstances (C17.R9): δ is a number of instances only if one instance is one unit of
+// fleet capacity. No shipped code gives a launch-template override a weight or the target capacity
+// another unit: no store to a WeightedCapacity or TargetCapacityUnitType field of an EC2 request type.
+func (ck *Check) capacityInInstances(rule string) {
+	nLit := 0
+	for _, fn := range ck.P.Funcs {
+		if !ck.P.inRepo(fn) {
+			continue
+		}
+		for _, b := range fn.Blocks {
+			for _, in := range b.Instrs {
+				if al, ok := in.(*ssa.Alloc); ok && strings.HasSuffix(typeName(al.Type()), "ec2.FleetLaunchTemplateOverridesRequest") {
+					nLit++
+				}
+				st, ok := in.(*ssa.Store)
+				if !ok {
+					continue
+				}
+				fa, ok := st.Addr.(*ssa.FieldAddr)
+				if !ok {
+					continue
+				}
+				f := fieldOfAddr(fa)
+				if f == nil || f.Pkg() == nil || !strings.HasSuffix(f.Pkg().Path(), "/service/ec2") {
+					continue
+				}
+				if f.Name() == "WeightedCapacity" || f.Name() == "TargetCapacityUnitType" {
+					if k, isC := st.Val.(*ssa.Const); isC && k.IsNil() {
+						continue
+					}
+					ck.fail(rule, fmt.Sprintf("%s/store:%s", funcID(fn), f.Name()), ck.P.instrPos(st), funcID(fn), "one instance is one unit of fleet capacity: no weight on an override, no other capacity unit", "store to "+f.Name(),
+						"the fleet fills TotalTargetCapacity = δ units with fewer than δ instances and reports the request as fulfilled")
+				}
+			}
+		}
+	}
+	ck.floor(rule, "launch-template override literals examined", nLit, 1)
+}
+
+// acceptedReported: the converse of outcomeReported. In the frame cs of the cloud step, every return
+// reached after call (IncreaseSize, or the next frame's helper) returned a nil error yields a nil
+// error itself — an accepted request is never reported as a failure, because the caller arms the
+// cool-down lock only on a nil error.
+func (ck *Check) acceptedReported(rule string, cs *ssa.Function, call *ssa.Call, what string) {
+	cctx := ck.P.NewCtx(cs)
+	ct := cctx.Term(call)
+	if call.Type() != nil {
+		if tup, ok := call.Type().(*types.Tuple); ok {
+			ct = &Term{Kind: "extract", Name: fmt.Sprint(tup.Len() - 1), Args: []*Term{ct}}
+		}
+	}
+	var errNil *Formula
+	for _, b := range cs.Blocks {
+		for _, at := range cctx.BlockPC(b).Atoms() {
+			if at.Kind == "cmp" && at.Name == "==" && hasConstStr(at, "nil") {
+				for _, x := range at.Args {
+					if x.Key() == ct.Key() {
+						errNil = Atom(at)
+					}
+				}
+			}
+		}
+	}
+	n := 0
+	for _, rc := range ck.returnCases(cctx, FTrue, 0) {
+		if !(call.Block().Dominates(rc.Ret.Block()) || reachesBlock(call.Block(), rc.Ret.Block())) && rc.Ctx == cctx {
+			continue
+		}
+		pre := And(rc.PC, cctx.PC(call))
+		if errNil != nil {
+			pre = And(pre, errNil)
+		}
+		if sat, err := Satisfiable(pre); err == nil && !sat {
+			continue
+		}
+		key := fmt.Sprintf("%s/return@block%d/accepted", funcID(rc.Ret.Parent()), rc.Ret.Block().Index)
+		if len(rc.Res) == 0 {
+			continue // no error result: reported by outcomeReported
+		}
+		et := rc.Res[len(rc.Res)-1]
+		n++
+		good := (et.Kind == "const" && et.Name == "nil") || et.Key() == ct.Key()
+		ck.cond(good, rule, key, ck.P.instrPos(rc.Ret), funcID(cs), "after "+what+" returned a nil error the cloud step returns a nil error (the caller arms the cool-down on nil only)", et.String(),
+			"a request the cloud provider accepted is reported as a failure: the cool-down is not armed and the next scan acts on the group again")
+	}
+	ck.floor(rule, "returns of "+funcID(cs)+" after an accepted "+what, n, 1)
+}
+
 // returnsCallUnchanged: result idx of call is returned directly by fn on the path through it.
 func (ck *Check) returnsCallUnchanged(rule string, fn *ssa.Function, call *ssa.Call, idx int) {
 	ctx := ck.P.NewCtx(fn)
@@ -1796,6 +1983,43 @@ func (ck *Check) batchIDs(rule, key string, fn *ssa.Function, es effSite, call *
 			}
 		}
 	}
+	// indexedFill: x is made with the length of the current batch, inside the batch loop, and filled
+	// by one unconditional store per element of a full range over the batch, at the range's own index
+	indexedFill := func(x *ssa.MakeSlice) (*ssa.Store, string) {
+		lc, isLen := isBuiltinCall(x.Len, "len")
+		sized := isLen && lc.Common().Args[0] == B && (x.Cap == x.Len)
+		fresh := es.Wrapper != nil || inLoop(x.Block())
+		stores, good := 0, 0
+		var the *ssa.Store
+		for _, r := range *x.Referrers() {
+			ia, ok := r.(*ssa.IndexAddr)
+			if !ok {
+				continue
+			}
+			for _, rr := range *ia.Referrers() {
+				if st, ok := rr.(*ssa.Store); ok && st.Addr == ssa.Value(ia) {
+					stores++
+					l := innermostLoop(idsFn, st.Block())
+					if l != nil && l.Over == B && l.FullTraversal() && l.Idx != nil && ia.Index == l.Idx {
+						body := l.bodyPC(ictx)
+						if eq, _, _ := Equivalent(ictx.PC(st), body); eq {
+							good++
+							the = st
+						}
+					}
+				}
+			}
+		}
+		switch {
+		case !sized:
+			return nil, "the id slice is not made with the length of the current batch"
+		case !fresh:
+			return nil, "the id slice is shared across batches"
+		case stores != 1 || good != 1:
+			return nil, "the id slice is not filled by one unconditional store per element of the current batch"
+		}
+		return the, ""
+	}
 	flds := ck.literalFields(ictx, es.In.Common().Args[0])
 	ids := flds["InstanceIds"]
 	okIDs := false
@@ -1829,37 +2053,61 @@ func (ck *Check) batchIDs(rule, key string, fn *ssa.Function, es effSite, call *
 			}
 		case *ssa.MakeSlice:
 			// ids := make([]string, len(batch)); for i := range batch { ids[i] = *batch[i] }
-			lc, isLen := isBuiltinCall(x.Len, "len")
-			sized := isLen && lc.Common().Args[0] == B && (x.Cap == x.Len)
-			fresh := es.Wrapper != nil || inLoop(x.Block())
-			stores, good := 0, 0
-			for _, r := range *x.Referrers() {
-				ia, ok := r.(*ssa.IndexAddr)
-				if !ok {
+			if _, w := indexedFill(x); w != "" {
+				why = w
+			} else {
+				okIDs = true
+			}
+		}
+	} else if B != nil {
+		// the pointer slice written by hand: ptrs := make([]*string, len(batch)), filled index by index
+		// with the batch's own elements or with the addresses of a copy filled the same way
+		if al, ok := es.In.Common().Args[0].(*ssa.Alloc); ok {
+			for _, r := range *al.Referrers() {
+				fa, ok := r.(*ssa.FieldAddr)
+				if !ok || fieldOfAddr(fa) == nil || fieldOfAddr(fa).Name() != "InstanceIds" {
 					continue
 				}
-				for _, rr := range *ia.Referrers() {
-					if st, ok := rr.(*ssa.Store); ok && st.Addr == ssa.Value(ia) {
-						stores++
-						l := innermostLoop(idsFn, st.Block())
-						if l != nil && l.Over == B && l.FullTraversal() && l.Idx != nil && ia.Index == l.Idx {
-							body := l.bodyPC(ictx)
-							if eq, _, _ := Equivalent(ictx.PC(st), body); eq {
-								good++
+				for _, rr := range *fa.Referrers() {
+					st, ok := rr.(*ssa.Store)
+					if !ok {
+						continue
+					}
+					ms, ok := st.Val.(*ssa.MakeSlice)
+					if !ok {
+						continue
+					}
+					fill, w := indexedFill(ms)
+					if w != "" {
+						why = w
+						continue
+					}
+					switch v := fill.Val.(type) {
+					case *ssa.IndexAddr:
+						cp, isMake := v.X.(*ssa.MakeSlice)
+						if !isMake || v.Index != fill.Addr.(*ssa.IndexAddr).Index {
+							why = "the pointers do not address the copy at the element's own index"
+						} else if _, w2 := indexedFill(cp); w2 != "" {
+							why = "the copied ids: " + w2
+						} else {
+							okIDs = true
+						}
+					default:
+						isElem := false
+						if l := innermostLoop(idsFn, fill.Block()); l != nil {
+							if ld, ok := fill.Val.(*ssa.UnOp); ok && ld.Op == token.MUL {
+								if ia, ok := ld.X.(*ssa.IndexAddr); ok && ia.X == l.Over && ia.Index == l.Idx {
+									isElem = true
+								}
 							}
+						}
+						if isElem {
+							okIDs = true
+						} else {
+							why = "the pointer slice is not filled with the current batch's elements"
 						}
 					}
 				}
-			}
-			switch {
-			case !sized:
-				why = "the id slice is not made with the length of the current batch"
-			case !fresh:
-				why = "the id slice is shared across batches"
-			case stores != 1 || good != 1:
-				why = "the id slice is not filled by one unconditional store per element of the current batch"
-			default:
-				okIDs = true
 			}
 		}
 	}
@@ -2163,6 +2411,8 @@ func checkC19(ck *Check) {
 	// R6 propagation
 	ck.notInGroupPropagation("C19.R6")
 	ck.fatalErrorCreation("C19.R6")
+	// R8 the minimum and the target the pre-checks read are those of the last refresh
+	ck.refreshReplaces("C19.R8")
 }
 
 // belongsShape: Belongs(node) ⇔ ∃ id ∈ Nodes(): id == node.Spec.ProviderID; Nodes() maps
